@@ -11,6 +11,13 @@
 //        item = s/<variant>/<labels>/<value bits hex16>/<tsMillis|->   a sample line
 //               x                                                      a malformed line
 //               c                                                      a comment line
+//   scrape <tsMillis> read <how> <pos> <item>* the request succeeds (HTTP 200) and the body is read by the PRODUCTION
+//        targetScraper.readResponse:
+//        how = cut   : the connection delivers the first min(pos, len) bytes of the rendered body and then fails
+//                      (pos = 0: before any byte; pos >= len: after the last line)            -> read failure
+//              limit : body_size_limit = min(pos, len) >= 1; readResponse copies that many bytes into the scrape
+//                      buffer and returns errBodySizeLimit (a body of exactly `limit` bytes fails too) -> read failure
+//              under : body_size_limit = len + 1 + pos: not exceeded                          -> ordinary body
 //   gc                                         the storage forgets all series refs (series are recreated)
 //   end                                        endOfRunStaleness (target removed)
 // labels = name=value,… sorted by name, including __name__ (characters [A-Za-z0-9_.$-] only).
@@ -505,6 +512,8 @@ func runOp(c *h.Ctx, st *caseState, op string) string {
 		var body []byte
 		var scrapeErr error
 		switch f[2] {
+		case "read":
+			return runRead(c, st, ts, f[3:])
 		case "err":
 			scrapeErr = errors.New("scripted scrape failure")
 		case "body":
@@ -538,6 +547,71 @@ func runOp(c *h.Ctx, st *caseState, op string) string {
 		return renderEvents(st.store.events, lo, hi, true)
 	}
 	return "bad-op"
+}
+
+// runRead executes `scrape <ts> read <how> <pos> <item>*`: the body goes through the production
+// readResponse; for cut/limit the read fails after a prefix of the body is already in the buffer.
+func runRead(c *h.Ctx, st *caseState, ts int64, f []string) string {
+	if len(f) < 2 {
+		return "bad-op"
+	}
+	pos, err := strconv.ParseInt(f[1], 10, 32)
+	if err != nil || pos < 0 {
+		return "bad-op"
+	}
+	var body []byte
+	for _, it := range f[2:] {
+		line, ok := renderItem(it)
+		if !ok {
+			return "bad-op"
+		}
+		body = append(body, line...)
+	}
+	n := int64(len(body))
+	var (
+		deliver   int
+		readErr   error
+		limit     int64
+		wantWrote = n
+		wantFail  = true
+		wantLimit = false
+	)
+	switch f[0] {
+	case "cut":
+		deliver, readErr = int(min(pos, n)), errors.New("scripted connection failure in the middle of the body")
+		wantWrote = int64(deliver)
+	case "limit":
+		if pos < 1 || n < 1 {
+			return "bad-op"
+		}
+		limit = min(pos, n)
+		wantWrote, wantLimit = limit, true
+	case "under":
+		limit = n + 1 + pos
+		wantFail = false
+	default:
+		return "bad-op"
+	}
+	st.store.events = nil
+	var wrote int
+	var failed, sizeLimit bool
+	if p, v := h.Try(func() {
+		wrote, failed, sizeLimit = st.loop.VerifScrapeAndReportRead(ts, body, "text/plain", deliver, readErr, limit)
+	}); p {
+		c.Count("panic")
+		return "panic " + strings.ReplaceAll(fmt.Sprint(v), " ", "_")
+	}
+	// the scripted fault must have happened as scripted (otherwise the case would be vacuous)
+	if int64(wrote) != wantWrote || failed != wantFail || sizeLimit != wantLimit {
+		return fmt.Sprintf("harness-error read wrote=%d/%d failed=%v/%v limit=%v/%v", wrote, wantWrote, failed, wantFail, sizeLimit, wantLimit)
+	}
+	if wantFail {
+		c.Count("read-fail:" + f[0])
+		if wrote > 0 {
+			c.Count("read-fail:partial-body-in-buffer")
+		}
+	}
+	return renderEvents(st.store.events, 0, 0, false)
 }
 
 func runCase(c *h.Ctx, ops []string) {
